@@ -8,6 +8,7 @@ Ops: arith A:ver:val op X   (op in add radd sub rsub iadd isub or and xor shl sh
 import operator
 
 from common import Case, W, value_classes, rand_value, errname, tf, harvest_literals, boundary_values
+import common
 from netaddr import IPAddress
 from netaddr.ip import BaseIP
 
@@ -352,6 +353,9 @@ def impl(c):
                 res = '!notaddress:' + type(r).__name__
             else:
                 res = _show(r)
+                if op not in ('iadd', 'isub'):
+                    # the result of a non-mutating operator is the caller's to move; the operands stay where they were
+                    common.disturb(r)
         except Exception as e:
             trace = [ev for (who, ev) in _LOG if who == me]
             res = '!' + errname(e)
